@@ -245,6 +245,9 @@ def run_econ(unit):
         flags = {f: True for f in c03.ALL_FLAGS}
         flags['totalcapcost.Valid'] = flags['oamtotalfixed.Valid'] = False
         flags['RITC.Provided'] = False
+    if route == 'correlations-itc':        # as 'correlations', with an investment tax credit rate supplied
+        flags = {f: False for f in c03.ALL_FLAGS}
+        flags['RITC.Provided'] = True
     c3 = dict(base, flags=flags)
     spec = [s for s in c03.spec_of(c3) if s[1] == 'real' and not s[0].startswith('wellbores.')]
     names = [s[0] for s in spec]
@@ -334,6 +337,10 @@ def units(tier, seed):
         for em in ((2, 3) if tier == 'quick' else (1, 2, 3)):
             for route in ('user-fixed', 'correlations', 'components-fixed'):
                 us.append({'harness': 'econ', 'kind': kind, 'em': em, 'route': route})
+    # cogeneration: the plant-cost split between the electricity and the heat side, and the tax-credit term of each side
+    for kind, em, route in ([('cogen-parallel', 2, 'correlations'), ('cogen-topping', 3, 'correlations-itc')] if tier == 'quick' else
+                            [(k, em, 'correlations-itc') for k in ('cogen-topping', 'cogen-bottoming', 'cogen-parallel', 'electricity', 'direct-use') for em in (1, 2, 3)]):
+        us.append({'harness': 'econ', 'kind': kind, 'em': em, 'route': route})
     return us
 
 
